@@ -6,7 +6,7 @@ import AbraProofs.Properties.C12
 is `false` as redundant).  Both directions are read off the invariant `compute_good`
 (Lemmas/PatMatrix.lean): the flag of arm `i` is `true` iff some well-typed value reaches arm `i`
 first.  Float literal constructors carry the parsed bit pattern (the repaired behaviour of D15), so
-`1.0` and `1.00` are the same constructor.
+`1.0` and `1.00` are the same constructor (the same `Pat.float bits` in the model).
 -/
 namespace Abra.PatMatrix
 
@@ -61,9 +61,23 @@ theorem C13_flags_length {env : EnumEnv} (hinh : Inhabited' env) {fuel : Nat} {t
     (h : check env fuel ty arms = some (flags, wits)) : flags.length = arms.length :=
   (check_good hinh htyped h).len
 
-/-- **Equal literals in different spellings are the same value**: float literal patterns are carried
-    by their parsed bits, so a second arm with the same value is redundant whatever its spelling
-    (the harness parses `1.0` and `1.00` to the same bits). -/
+/-- **A repeated pattern is redundant**: an arm whose pattern is the pattern of an earlier arm is never
+    flagged useful, for every type and every pattern kind.  (Float literal patterns carry their parsed
+    bits in the model, so two spellings of one double are the same `Pat`; that the harness and the
+    checker parse `1.0` and `1.00` to the same bits is part of the tie, not of this theorem.) -/
+theorem C13_repeated_arm_redundant {env : EnumEnv} (hinh : Inhabited' env) {fuel : Nat} {ty : Ty} {arms : List Pat}
+    (htyped : ∀ p ∈ arms, patTyped env p ty = true) {flags : List Bool} {wits : List DPat}
+    (h : check env fuel ty arms = some (flags, wits)) (i j : Nat) (hij : i < j) (hj : j < arms.length)
+    (heq : arms[i]'(by omega) = arms[j]) : flags.getD j false = false := by
+  cases hf : flags.getD j false with
+  | false => rfl
+  | true =>
+    obtain ⟨v, _, hm, hmin⟩ := C13_useful_complete hinh htyped h j hj hf
+    have h0 := hmin i hij
+    rw [heq, hm] at h0
+    exact absurd h0 (by simp)
+
+/-- the special case "two leading arms with the same float bits": the second is redundant -/
 theorem C13_equal_float_redundant {env : EnumEnv} (hinh : Inhabited' env) {fuel : Nat} (bits : Nat)
     (rest : List Pat) (hrest : ∀ p ∈ rest, patTyped env p .float = true) {flags : List Bool} {wits : List DPat}
     (h : check env fuel .float (.float bits :: .float bits :: rest) = some (flags, wits)) :
